@@ -3,7 +3,9 @@ import random
 from functools import cached_property
 from typing import Dict, List, Tuple
 
+import numpy as np
 from gymnasium.core import ObsType
+from numpy.random import Generator
 from pydantic import computed_field, Field, model_validator
 
 from primaite.game.agent.interface import AbstractScriptedAgent
@@ -15,6 +17,8 @@ class RandomAgent(AbstractScriptedAgent, discriminator="random-agent"):
     """Agent that ignores its observation and acts completely at random."""
 
     config: "RandomAgent.ConfigSchema" = Field(default_factory=lambda: RandomAgent.ConfigSchema())
+
+    rng: Generator = Field(default_factory=lambda: np.random.default_rng(np.random.randint(0, 65535)))
 
     class ConfigSchema(AbstractScriptedAgent.ConfigSchema):
         """Configuration Schema for Random Agents."""
@@ -31,7 +35,11 @@ class RandomAgent(AbstractScriptedAgent, discriminator="random-agent"):
         :return: Action formatted in CAOS format
         :rtype: Tuple[str, Dict]
         """
-        return self.action_manager.get_action(self.action_manager.space.sample())
+        space = self.action_manager.space
+        # a fresh gymnasium space seeds itself from OS entropy: seed it from this agent's own generator, which is derived
+        # from the seeded global generator when the agent is built (the idiom ProbabilisticAgent uses for its generator)
+        space.seed(int(self.rng.integers(0, 65535)))
+        return self.action_manager.get_action(space.sample())
 
 
 class PeriodicAgent(AbstractScriptedAgent, discriminator="periodic-agent"):
